@@ -136,6 +136,9 @@ class C06(Prop):
         batches = [items[k:k + BATCH] for k in range(0, len(items), BATCH)]
         for bi in range(shard, len(batches), nshards):
             yield {"items": batches[bi], "seed": f"{seed}/{bi}"}
+            if bi // nshards in (3, 11):
+                # a long-lived listener on a chatty network: thousands of tiny foreign datagrams, most of them empty
+                yield {"flood": 2600 if tier == "quick" else 12000, "seed": f"{seed}/flood{bi}"}
 
     def _build(self, item, r):
         kind = item[0]
@@ -214,12 +217,46 @@ class C06(Prop):
         from ..ref import clock
 
         r = env.rng("C06", case["seed"])
+        if case.get("flood"):
+            await self._flood(case, acc, r)
+            return
         # the wall clock moves between batches: a second, a minute and a bit, hours, a day, now and then backwards
         self.vnow += r.choice([0.5, 7, 61, 61, 3700, 86400 + 5, -30, -4000])
         with clock.virtual_time(self.vnow):
             await self._run_batch(case, acc, r)
         if self.churn.done():
             acc.inconclusive_because(f"the background TCP client stopped: {self.churn.exception()!r}")
+
+    async def _flood(self, case, acc, r):
+        log = self.rig.log
+        sent = 0
+        while sent < case["flood"]:
+            log.clear()
+            chunk = []
+            for _ in range(40):
+                x = r.random()
+                data = b"" if x < 0.7 else (r.randbytes(1) if x < 0.85 else r.randbytes(r.randrange(2, 5)))
+                if rb.gate(data):
+                    continue
+                chunk.append(data)
+                self.rig.send(self.port, data)
+            res = await self.rig.barrier(self.port)
+            sent += len(chunk)
+            if res == "dropped":
+                acc.inconclusive_because("kernel dropped datagrams (drops>0 in /proc/net/udp)")
+                return
+            events = [e for e in log.events if not (e[0] == "device" and udp.is_sentinel(e[1]))]
+            acc.ev(len(chunk))
+            acc.count("tiny_foreign_datagrams_in_floods", len(chunk))
+            if res == "lost":
+                acc.violation("later-delivery-stopped", f"after {sent} tiny foreign datagrams (most of them empty) a sentinel broadcast was no longer delivered",
+                              {"events": [str(e)[:160] for e in events][:5]})
+                return
+            if events:
+                acc.violation(f"nongenuine-produced-{events[0][0]}:flood", f"a run of {len(chunk)} empty / 1..4-byte datagrams (about {sent} into a flood) caused {events[:2]}",
+                              {"events": [str(e)[:200] for e in events][:5], "datagrams": [d.hex() for d in chunk][:10]})
+                return
+        acc.sig(env.sig("flood", case["seed"]))
 
     async def _run_batch(self, case, acc, r):
         log = self.rig.log
